@@ -197,6 +197,14 @@ def col (B : List (List Rat)) (j : Nat) : List Rat := B.map fun r => r.getD j 0
 def klData (coef B : List (List Rat)) (m : Nat) : List (List Rat) :=
   coef.map fun c => (List.range m).map fun j => dot c (col B j)
 
+/-- `coefficients × basis` contracted over axis `ca` of the coefficients (rows = 0, columns = 1) and
+axis `ba` of the basis values: entry `(i, j)` of the product -/
+def contractEntry (ca ba : Nat) (coef B : List (List Rat)) (i j : Nat) : Rat :=
+  dot (if ca = 1 then coef.getD i [] else col coef i) (if ba = 0 then col B j else B.getD j [])
+
+/-- what `KarhunenLoeve.new` stores in `eigenvalues`: a column of `clusters_std` -/
+def storedEigenvalues (clustersStd : List (List Rat)) (column : Nat) : List Rat := col clustersStd column
+
 /-- multivariate Karhunen–Loève: the same coefficients in every component -/
 def klMulti (coef : List (List Rat)) (Bs : List (List (List Rat) × Nat)) : List (List (List Rat)) :=
   Bs.map fun b => klData coef b.1 b.2
